@@ -34,11 +34,27 @@ type authEvent struct {
 	Required string  `json:"required,omitempty"`
 	Desired  string  `json:"desired,omitempty"`
 	Dt       float64 `json:"dt,omitempty"`
+	// Demand: what the registry really wants for this request when that is not what the caller declared
+	// as required ("" = the required scope): a plain request declares nothing and learns from the challenge
+	Demand string `json:"registry_demand,omitempty"`
+}
+
+func (e authEvent) demand() string {
+	if e.Demand != "" {
+		return e.Demand
+	}
+	return e.Required
 }
 
 func (e authEvent) String() string {
 	if e.K == "tick" {
 		return fmt.Sprintf("tick(%gs)", e.Dt)
+	}
+	if e.K == "revoke" {
+		return fmt.Sprintf("registry %s stops accepting every token issued so far", e.Host)
+	}
+	if e.Demand != "" {
+		return fmt.Sprintf("req(%s, required=%q, desired=%q; the registry demands %q)", e.Host, e.Required, e.Desired, e.Demand)
 	}
 	return fmt.Sprintf("req(%s, required=%q, desired=%q)", e.Host, e.Required, e.Desired)
 }
@@ -58,6 +74,7 @@ type authSys struct {
 	hist    []authEvent
 	events  []authEvent
 	monitor func(s *authSys, ev authEvent, trip int, resp *http.Response, err error, before authSnapshot)
+	revoked map[string]bool          // registry hosts that have revoked tokens in this history
 	scopes  map[string]ociauth.Scope // one Scope value per text, handed to every request that names it (callers keep and reuse scope values)
 }
 
@@ -117,10 +134,24 @@ func (s *authSys) Apply(ev authEvent, check bool) (tainted bool) {
 		s.net.tick(time.Duration(ev.Dt * float64(time.Second)))
 		return false
 	}
+	if ev.K == "revoke" {
+		for _, it := range s.net.issued {
+			if it.Host == ev.Host {
+				it.Revoked = true
+			}
+		}
+		if s.revoked == nil {
+			s.revoked = map[string]bool{}
+		}
+		s.revoked[ev.Host] = true
+		return false
+	}
 	required := s.scopeValue(ev.Required)
 	before := authSnapshot{issued: len(s.net.issued)}
 	for _, it := range s.net.issued {
-		if it.Host == ev.Host && !s.net.now.Add(2*time.Second).After(it.Issued.Add(it.Lifetime)) && setContains(it.Set, scopeSet(ev.Required)) {
+		// once a registry has revoked tokens behind the client's back the client cannot know which of its
+		// cached tokens still work: the economy clause (no token request, one round trip) is not judged
+		if it.Host == ev.Host && !s.revoked[ev.Host] && ev.Demand == "" && !s.net.now.Add(2*time.Second).After(it.Issued.Add(it.Lifetime)) && setContains(it.Set, scopeSet(ev.Required)) {
 			before.mustReuse = true
 		}
 	}
@@ -130,7 +161,7 @@ func (s *authSys) Apply(ev authEvent, check bool) (tainted bool) {
 		ctx = ociauth.ContextWithScope(ctx, s.scopeValue(ev.Desired))
 	}
 	req, _ := http.NewRequestWithContext(ctx, "GET", "https://"+ev.Host+"/v2/x/manifests/t", nil)
-	req.Header.Set("X-Demand", ev.Required)
+	req.Header.Set("X-Demand", ev.demand())
 	s.net.trip++
 	trip := s.net.trip
 	var resp *http.Response
@@ -155,8 +186,9 @@ func (s *authSys) Key() string {
 	// the fake world's own state: issued tokens (relative to now), what hosts have seen
 	var sb strings.Builder
 	for _, it := range s.net.issued {
-		fmt.Fprintf(&sb, "%s|%s|%s|%v;", it.Token, it.Host, it.Scope.Canonical().String(), it.Issued.Add(it.Lifetime).Sub(s.net.now))
+		fmt.Fprintf(&sb, "%s|%s|%s|%v|%v;", it.Token, it.Host, it.Scope.Canonical().String(), it.Issued.Add(it.Lifetime).Sub(s.net.now), it.Revoked)
 	}
+	fmt.Fprintf(&sb, "revoked=%v", s.revoked)
 	return d.String() + "\nissued=" + sb.String() + fmt.Sprintf("\nnow=%v", s.net.now.Sub(authEpoch))
 }
 
@@ -283,7 +315,7 @@ func c10Monitor(s *authSys, ev authEvent, trip int, resp *http.Response, err err
 				// what challenge did the registry send? reconstruct from its config
 				if c := n.hosts[x.Dest]; c != nil {
 					h := http.Header{}
-					for _, ch := range n.challengeFor(c, ociauth.ParseScope(ev.Required)) {
+					for _, ch := range n.challengeFor(c, ociauth.ParseScope(ev.demand())) {
 						h.Add("Www-Authenticate", ch)
 					}
 					lastChallenge, haveChallenge = challengeScopeOf(h)
@@ -391,7 +423,7 @@ func c10RunBatch(r *vcore.Run, b c10Batch, bound int) vsched.Stats {
 				ctx = ociauth.ContextWithScope(ctx, shared[ev.Desired])
 			}
 			req, _ := http.NewRequestWithContext(ctx, "GET", "https://"+ev.Host+"/v2/x/manifests/t", nil)
-			req.Header.Set("X-Demand", ev.Required)
+			req.Header.Set("X-Demand", ev.demand())
 			resp, err := sys.tr.RoundTrip(req)
 			if err == nil && resp != nil {
 				io.Copy(io.Discard, resp.Body)
@@ -431,17 +463,41 @@ func c10RunBatch(r *vcore.Run, b c10Batch, bound int) vsched.Stats {
 			required := ociauth.ParseScope(ev.Required)
 			regTrips := 0
 			tokenReq := false
+			chalText, haveChal := "", false
 			for _, x := range n.sent {
 				if x.Trip != trip {
 					continue
 				}
 				if x.Kind == "token" {
 					tokenReq = true
+					// answering a challenge received in this call: the token request names that challenge's scope
+					if haveChal {
+						var text string
+						if x.Method == "POST" {
+							form, _ := url.ParseQuery(x.Body)
+							text = form.Get("scope")
+						} else {
+							q, _ := url.ParseQuery(x.Query)
+							text = strings.Join(q["scope"], " ")
+						}
+						if !setContains(scopeSet(text), scopeSet(chalText)) {
+							r.Violate("batch", "C10/batch/token-request-does-not-ask-for-the-challenge-scope", bb, "the scope of the challenge this call received: "+chalText, text+" | "+trafficText(n, trip))
+						}
+					}
 				}
 				if x.Kind != "registry" {
 					continue
 				}
 				regTrips++
+				if x.Status == 401 {
+					if c := n.hosts[x.Dest]; c != nil {
+						h := http.Header{}
+						for _, ch := range n.challengeFor(c, ociauth.ParseScope(ev.demand())) {
+							h.Add("Www-Authenticate", ch)
+						}
+						chalText, haveChal = challengeScopeOf(h)
+					}
+				}
 				if !strings.HasPrefix(x.Auth, "Bearer ") {
 					continue
 				}
@@ -459,6 +515,8 @@ func c10RunBatch(r *vcore.Run, b c10Batch, bound int) vsched.Stats {
 					r.Violate("batch", "C10/batch/token-of-another-host", bb, x.Dest, it.Host)
 				case x.Time.After(it.Issued.Add(it.Lifetime)):
 					r.Violate("batch", "C10/batch/expired-token-sent", bb, "unexpired", tok)
+				case tokenReq && haveChal && regTrips == 2 && !setContains(it.Set, scopeSet(chalText)):
+					r.Violate("batch", "C10/batch/fresh-token-does-not-cover-challenge-scope", bb, "a token covering the challenge scope "+chalText, it.Scope.Canonical().String()+" | "+trafficText(n, trip))
 				case !tokenReq && !setContains(it.Set, scopeSet(ev.Required)):
 					r.Violate("batch", "C10/batch/reused-token-does-not-cover-required-scope", bb, required.Canonical().String(), it.Scope.Canonical().String()+" | "+trafficText(n, trip))
 				}
@@ -470,6 +528,9 @@ func c10RunBatch(r *vcore.Run, b c10Batch, bound int) vsched.Stats {
 		// epilogue (sequential, after every thread has finished): whatever the threads obtained must be
 		// in the cache now: repeating each thread's request must not need another token request
 		for i, ev := range b.Threads {
+			if ev.Demand != "" {
+				continue // the caller declares nothing: which cached token it presents first is its own business
+			}
 			required := ociauth.ParseScope(ev.Required)
 			must := false
 			for _, it := range n.issued {
@@ -484,7 +545,7 @@ func c10RunBatch(r *vcore.Run, b c10Batch, bound int) vsched.Stats {
 			ctx := context.WithValue(context.Background(), authTripKey{}, trip)
 			ctx = ociauth.ContextWithRequestInfo(ctx, ociauth.RequestInfo{RequiredScope: required})
 			req, _ := http.NewRequestWithContext(ctx, "GET", "https://"+ev.Host+"/v2/x/manifests/t", nil)
-			req.Header.Set("X-Demand", ev.Required)
+			req.Header.Set("X-Demand", ev.demand())
 			if resp, err := sys.tr.RoundTrip(req); err == nil && resp != nil {
 				resp.Body.Close()
 			}
@@ -517,6 +578,13 @@ func c10Batches() []c10Batch {
 			c10Batch{Hosts: []*authHostCfg{cfg}, Prologue: []authEvent{pull}, Threads: []authEvent{pull, other}},
 			c10Batch{Hosts: []*authHostCfg{cfg}, Prologue: []authEvent{pull, {K: "tick", Dt: 1.5}}, Threads: []authEvent{pull, push}},
 			c10Batch{Hosts: []*authHostCfg{cfg}, Prologue: []authEvent{pull}, Threads: []authEvent{pull, push, other}},
+		)
+		// plain requests that declare nothing and are challenged for different scopes at the same time
+		plainX := authEvent{K: "req", Host: "a.example", Demand: "repository:x:pull"}
+		plainY := authEvent{K: "req", Host: "a.example", Demand: "repository:y:pull"}
+		out = append(out,
+			c10Batch{Hosts: []*authHostCfg{cfg}, Threads: []authEvent{plainX, plainY}},
+			c10Batch{Hosts: []*authHostCfg{cfg}, Prologue: []authEvent{pull}, Threads: []authEvent{plainX, plainY}},
 		)
 		// a token server that takes longer than the cached token still has to live: a request that waited
 		// for the other one's token acquisition must look at the clock again before reusing the cache
@@ -609,6 +677,10 @@ func c10Events(cfgs []*authHostCfg, thorough bool) []authEvent {
 			}
 		}
 	}
+	// plain requests: nothing declared, the registry's challenge says what is needed
+	if len(cfgs) == 1 {
+		evs = append(evs, authEvent{K: "req", Host: cfgs[0].Host, Demand: "repository:x:pull"}, authEvent{K: "req", Host: cfgs[0].Host, Demand: "repository:y:pull"})
+	}
 	// a token over three repositories, then a two-repository demand it does not cover (cross-repository mount)
 	for _, c := range cfgs {
 		evs = append(evs,
@@ -673,6 +745,39 @@ func c10Check(r *vcore.Run) vcore.Coverage {
 			}
 		}
 	}
+	// registries that stop accepting tokens they issued (key rotation, revocation): safety clauses only
+	{
+		rdepth := 5
+		if r.Thorough() {
+			rdepth = 6
+		}
+		for _, creds := range []string{"none", "refresh"} {
+			for _, chal := range []string{"exact", "wider"} {
+				cfgs := []*authHostCfg{{Host: "a.example", Scheme: "bearer", Challenge: chal, Creds: creds, TokenMode: "grant"}}
+				events := []authEvent{
+					{K: "req", Host: "a.example", Required: "repository:x:pull", Desired: "repository:y:pull"},
+					{K: "req", Host: "a.example", Required: "repository:x:pull"},
+					{K: "req", Host: "a.example", Required: "repository:y:pull"},
+					{K: "revoke", Host: "a.example"},
+					{K: "tick", Dt: 61},
+				}
+				st := vstate.BFS(vstate.Spec[authEvent]{
+					New: func() vstate.System[authEvent] {
+						s := newAuthSys(r, "C10", cfgs, events)
+						s.monitor = c10Monitor
+						return s
+					},
+					MaxDepth: rdepth, Deadline: 2 * time.Minute, MaxStates: 100000,
+				})
+				states += st.States
+				trans += st.Transitions
+				if st.CapHit != "" {
+					exhaustive = false
+				}
+				notes = append(notes, map[string]any{"hosts": cfgs, "revoking_registry": true, "states": st.States, "transitions": st.Transitions, "completed_depth": st.Depth, "cap_hit": st.CapHit})
+			}
+		}
+	}
 	// concurrent batches: all schedules with <= 2 preemptions (thorough: 3)
 	bound := 2
 	if r.Thorough() {
@@ -696,10 +801,10 @@ func c10Check(r *vcore.Run) vcore.Coverage {
 		"the registry's demand for a request equals the request's required scope; challenge scopes come from the menu {exact, wider, narrower, unrelated, empty, unparsable}",
 		"lifetime omitted means the documented default of 60 s; the reuse obligation applies to tokens with at least 2 s of life left (the transport's own expiry margin is not part of the statement); a token is expired when now > issue + lifetime",
 		"time.Now inside ociauth is replaced by a virtual clock through the build overlay; nothing sleeps",
-		"concurrent batches: 14 harnesses (4 with a token server slower than the cached token's remaining life) of 2-3 threads issuing one RoundTrip each from a seeded state, all schedules within the preemption bound, scheduling points at the transport's mutexes / once and at the fake network; safety part of the monitor only (own, unexpired, sufficient token; <= 2 attempts)",
+		"concurrent batches: 18 harnesses (4 with a token server slower than the cached token's remaining life) of 2-3 threads issuing one RoundTrip each from a seeded state, all schedules within the preemption bound, scheduling points at the transport's mutexes / once and at the fake network; safety part of the monitor only (own, unexpired, sufficient token; <= 2 attempts)",
 	}
 	return vcore.Coverage{States: states, Transitions: trans, TracesImpl: trans, Evaluations: trans, Nontrivial: states, Exhaustive: exhaustive,
-		Rule: fmt.Sprintf("BFS to depth %d over event histories {request(host, required in 6 scopes, desired in 2), tick 0.5 s / 1 s / 61 s} for %d registry/token-server/credential configurations (challenge scope exact/wider/narrower/unrelated/empty/unparsable; token server grants / refuses over-wide / lacks POST; lifetimes omitted,1,2,3 s; credentials none/basic/refresh/static; one two-host configuration); state = reflective dump of the transport + issued tokens relative to the virtual clock; monitor on every forwarded request and token request", depth, len(c10Configs(r.Thorough())))}
+		Rule: fmt.Sprintf("BFS to depth %d over event histories {request(host, required in 6 scopes, desired in 2), tick 0.5 s / 1 s / 61 s} for %d registry/token-server/credential configurations (challenge scope exact/wider/narrower/unrelated/empty/unparsable; token server grants / refuses over-wide / lacks POST; lifetimes omitted,1,2,3 s; credentials none/basic/refresh/static; one two-host configuration); state = reflective dump of the transport + issued tokens relative to the virtual clock; monitor on every forwarded request and token request; plus histories to depth 5 (thorough 6) with a registry that stops accepting every token issued so far (safety clauses only afterwards)", depth, len(c10Configs(r.Thorough())))}
 }
 
 func c10Replay(r *vcore.Run, sub string, raw json.RawMessage) {
